@@ -8,6 +8,7 @@ import Nstd.Sync.LiveSem
 import Nstd.Sync.LiveSignal
 import Nstd.Sync.LiveMonitor
 import Nstd.Sync.WhatIf
+import Nstd.Sync.LiveDemo
 /-
   Property C11 — Mutex, Semaphore, Signal, Monitor and Thread keep their contracts under every interleaving.
 
@@ -449,6 +450,67 @@ theorem monitor_set_eventually_releases_a_waiter {now spur : Nat} (r : Run Monit
     (hfree : ∀ k, ∃ j, k ≤ j ∧ (r.st j).m = none) (n : Nat) (hf : (r.st n).flag = true) (u : Tid)
     (hu : (r.st n).pc u = .wBlocked none true) : ∃ m, n ≤ m ∧ (r.st n).succ < (r.st m).succ :=
   Monitor.set_eventually_releases_a_waiter r h0 hwf hsf hfree n hf u hu
+
+/-! non-vacuity of the three liveness theorems: concrete fair runs (LiveDemo.lean) that meet their hypotheses -/
+
+example : WeakFair Sem.demoRun Sem.prog ∧ (∀ m, 1 ≤ m → 0 < (Sem.demoRun.st m).count) ∧
+    Sem.waiting ((Sem.demoRun.st 1).pc 1) = true := by
+  refine ⟨?_, ?_, rfl⟩
+  · intro t n h
+    have h2 := h (n + 2) (by omega)
+    exfalso
+    have : Sem.prog Sem.d2 t = false := by
+      simp only [Sem.prog, Sem.d2, Sem.d1, Sem.d0, Sem.step, Sem.init, Sem.done, Option.getD]
+      by_cases ht : t = 1 <;> simp [upd, ht]
+    have e : Sem.demoRun.st (n + 2) = Sem.d2 := rfl
+    rw [e, this] at h2; cases h2
+  · intro m hm
+    match m with
+    | 1 => decide
+    | k + 2 =>
+      show 0 < Sem.d2.count
+      decide
+
+example : Signal.Reach false 0 0 (Signal.demoRun.st 0) ∧ WeakFair Signal.demoRun Signal.prog ∧
+    StrongFair Signal.demoRun Signal.lk ∧ (∀ m, 5 ≤ m → (Signal.demoRun.st m).flag = true) ∧
+    (Signal.demoRun.st 5).pc 1 = .wBlocked none := by
+  refine ⟨.init, ?_, ?_, ?_, rfl⟩
+  · intro t n h
+    have h2 := h (n + 9) (by omega)
+    have e : Signal.demoRun.st (n + 9) = Signal.d9 := rfl
+    rw [e] at h2
+    simp [Signal.prog, Signal.d9_idle] at h2
+  · intro t n h
+    obtain ⟨j, hj, hl⟩ := h (n + 9) (by omega)
+    obtain ⟨k, rfl⟩ : ∃ k, j = k + 9 := ⟨j - 9, by omega⟩
+    have e : Signal.demoRun.st (k + 9) = Signal.d9 := rfl
+    rw [e] at hl
+    simp [Signal.lk, Signal.d9_idle] at hl
+  · intro m hm
+    match m with
+    | 5 => rfl
+    | 6 => rfl
+    | 7 => rfl
+    | 8 => rfl
+    | k + 9 => rfl
+
+example : Monitor.Reach 0 0 (Monitor.demoRun.st 0) ∧ WeakFair Monitor.demoRun Monitor.prog ∧
+    StrongFair Monitor.demoRun Monitor.lk ∧ (∀ k, ∃ j, k ≤ j ∧ (Monitor.demoRun.st j).m = none) ∧
+    (Monitor.demoRun.st 6).flag = true ∧ (Monitor.demoRun.st 6).pc 1 = .wBlocked none true := by
+  refine ⟨.init, ?_, ?_, ?_, rfl, rfl⟩
+  · intro t n h
+    have h2 := h (n + 11) (by omega)
+    have e : Monitor.demoRun.st (n + 11) = Monitor.d11 := rfl
+    rw [e] at h2
+    simp [Monitor.prog, Monitor.d11_idle] at h2
+  · intro t n h
+    obtain ⟨j, hj, hl⟩ := h (n + 11) (by omega)
+    obtain ⟨k, rfl⟩ : ∃ k, j = k + 11 := ⟨j - 11, by omega⟩
+    have e : Monitor.demoRun.st (k + 11) = Monitor.d11 := rfl
+    rw [e] at hl
+    simp [Monitor.lk, Monitor.d11_idle] at hl
+  · intro k
+    exact ⟨k + 11, by omega, rfl⟩
 
 /-! ## the driver of the correspondence run -/
 
